@@ -2,6 +2,7 @@ pub mod c02;
 pub mod c03;
 pub mod c04;
 pub mod c05;
+pub mod c15;
 pub mod c16;
 
 #[derive(Clone, Copy, PartialEq, Eq, Debug)]
@@ -38,6 +39,7 @@ pub fn run(prop: &str, tier: Tier, seed: u64, out: &str) -> bool {
         "C03" => c03::run(tier, seed, out),
         "C04" => c04::run(tier, seed, out),
         "C05" => c05::run(tier, seed, out),
+        "C15" => c15::run(tier, seed, out),
         "C16" => c16::run(tier, seed, out),
         _ => return false,
     }
